@@ -114,10 +114,14 @@ class Rig:
         except BaseException as e:
             return 'other:' + type(e).__name__
 
+    def started(self):
+        v = getattr(self.layer, 'started', None)
+        return bool(v) if v is not None else self.threads() > 0
+
     def observe(self):
         l = self.layer
-        st = '%d %d' % (int(bool(l.started)), self.threads())
-        if not l.started:
+        st = '%d %d' % (int(self.started()), self.threads())
+        if not self.started():
             st += ' trans=%d avail=%d rx=%d' % (int(l.transmitting()), int(l.available()), int(l.is_rx_active()))
         return st
 
@@ -189,7 +193,7 @@ def run_sequence(part, m, kind, seq, campaign, final_transfer=True):
     fails = []
     try:
         for i, op in enumerate(seq):
-            was_started = bool(rig.layer.started)
+            was_started = rig.started()
             r = rig.call(op)
             obs.append('%s %s' % (r, rig.observe()))
             part.hist('ops', op + '/' + r)
@@ -205,9 +209,9 @@ def run_sequence(part, m, kind, seq, campaign, final_transfer=True):
                     time.sleep(0.1)
                     if rig.threads() != 0:
                         fails.append(('C14:thread-leak', '%d thread(s) of the layer still alive after stop()' % rig.threads()))
-                if l.started or l.transmitting() or l.available() or l.is_rx_active():
+                if rig.started() or l.transmitting() or l.available() or l.is_rx_active():
                     fails.append(('C14:not-idle-after-stop', 'after stop(): started=%s transmitting=%s available=%s rx_active=%s' % (
-                        l.started, l.transmitting(), l.available(), l.is_rx_active())))
+                        rig.started(), l.transmitting(), l.available(), l.is_rx_active())))
             if op == 'start' and r == 'ok' and rig.threads() != 2:
                 fails.append(('C14:thread-count', '%d threads after start()' % rig.threads()))
         if final_transfer and not fails:
@@ -254,6 +258,7 @@ def midtransfer(part, rng, kind, campaign):
     try:
         rig.layer.params.set('stmin', 5)
         rig.call('start')
+        mine_threads = [t for t in threading.enumerate() if t not in rig.baseline]
         rig.start_peer()
         rig.peer.params.set('stmin', 5)
         direction = rng.choice(['tx', 'rx', 'both'])
@@ -270,12 +275,12 @@ def midtransfer(part, rng, kind, campaign):
             fails.append(('C14:wrong-exception', 'stop() during a transfer: %s' % r))
         elif rig.stop_s > 2.2:
             fails.append(('C14:stop-not-bounded', 'stop() during a transfer took %.2f s' % rig.stop_s))
-        elif l.started or l.transmitting() or l.available() or l.is_rx_active():
+        elif getattr(l, 'started', False) or l.transmitting() or l.available() or l.is_rx_active():
             fails.append(('C14:not-idle-after-stop', 'after stop() during a transfer (%s): started=%s transmitting=%s available=%s rx_active=%s' % (
-                direction, l.started, l.transmitting(), l.available(), l.is_rx_active())))
+                direction, getattr(l, 'started', None), l.transmitting(), l.available(), l.is_rx_active())))
         else:
             # threads of the layer only (the peer's are still running)
-            mine = [t for t in (l.main_thread, l.relay_thread) if t is not None and t.is_alive()]
+            mine = [t for t in mine_threads if t.is_alive()]
             if mine:
                 fails.append(('C14:thread-leak', 'worker/relay thread alive after stop() during a transfer'))
     finally:
@@ -311,8 +316,8 @@ def inflight(part, rng, kind, campaign):
         if kind != 'tl':
             time.sleep(0.05)
         l = rig.layer
-        if r != 'ok' or l.started or l.available() or l.transmitting() or l.is_rx_active():
-            fails.append(('C14:not-idle-after-stop', 'stop() under incoming traffic: %s started=%s available=%s' % (r, l.started, l.available())))
+        if r != 'ok' or rig.started() or l.available() or l.transmitting() or l.is_rx_active():
+            fails.append(('C14:not-idle-after-stop', 'stop() under incoming traffic: %s started=%s available=%s' % (r, rig.started(), l.available())))
         else:
             sent_before = rig.q_out.qsize() if kind == 'tl' else None
             r2 = rig.call('start')
